@@ -155,7 +155,7 @@ pub fn record_kinds(tree: &RefExpr, st: &mut Stats) {
 
 fn gen_case(src: &mut Src, st: &mut Stats, _env: &Env) -> CaseResult {
     let mut doc = gen_doc(src, &DocOpts::default());
-    if src.chance(8) {
+    if src.chance(28) {
         crate::gen_doc::scale_some_array(&mut doc, src, 2500);
         st.class("scaled-document");
     }
